@@ -589,7 +589,12 @@ class ReactionSystem(object):
         if unit is not None:
             cont = to_unitless(cont, unit)
 
-        cont = np.atleast_1d(np.asarray(cont, dtype=dtype).squeeze())
+        cont = np.asarray(cont, dtype=dtype)
+        if cont.ndim > 1 and cont.shape[-1] == self.ns:
+            # the last axis is the substance axis: keep it even if its length is one
+            cont = cont.reshape([n for n in cont.shape[:-1] if n != 1] + [self.ns])
+        else:
+            cont = np.atleast_1d(cont.squeeze())
         if cont.shape[-1] != self.ns:
             raise ValueError("Incorrect size")
         return cont * (unit if unit is not None else 1)
